@@ -21,9 +21,13 @@ def _alarm(signum, frame):
 
 
 def guarded(fn: Callable[[Any], Any], item: Any, seconds: float) -> Any:
-    """Run fn(item) under a SIGALRM budget; returns {"hang": True} on timeout."""
+    """Run fn(item) under a budget of `seconds` of CPU time of this process (SIGPROF: a busy machine must not turn
+    a slow case into a "hang") and 8 x `seconds` of wall-clock time (SIGALRM: a case that blocks without using the
+    CPU); returns {"hang": True} when either is used up."""
     old = signal.signal(signal.SIGALRM, _alarm)
-    signal.setitimer(signal.ITIMER_REAL, seconds)
+    oldp = signal.signal(signal.SIGPROF, _alarm)
+    signal.setitimer(signal.ITIMER_REAL, seconds * 8)
+    signal.setitimer(signal.ITIMER_PROF, seconds)
     try:
         return fn(item)
     except Hang:
@@ -33,8 +37,10 @@ def guarded(fn: Callable[[Any], Any], item: Any, seconds: float) -> Any:
     except MemoryError:
         return {"err": "MemoryError", "out": [], "junk": ""}
     finally:
+        signal.setitimer(signal.ITIMER_PROF, 0)
         signal.setitimer(signal.ITIMER_REAL, 0)
         signal.signal(signal.SIGALRM, old)
+        signal.signal(signal.SIGPROF, oldp)
 
 
 _MAIN_PID = os.getpid()
@@ -72,7 +78,7 @@ def pmap(fn: Callable[[Any], Any], items: Sequence[Any], *, workers: int = 12, p
         futs = [ex.submit(_chunk, (fn, c, per_item_s)) for c in chunks]
         try:
             for f, c in zip(futs, chunks):
-                out.extend(f.result(timeout=per_item_s * len(c) + 120))
+                out.extend(f.result(timeout=per_item_s * 8 * len(c) + 120))
                 done_chunks += 1
         except FutTimeout as e:
             for p in list(ex._processes.values()):
